@@ -83,8 +83,13 @@ class Wire:
                 loop.call_at(t0 + dt, self._feed, ch)
 
     def _feed(self, ch: bytes) -> None:
-        if not self.closed:
+        if self.closed:
+            return
+        try:
             self.reader.feed_data(ch)
+        except AssertionError:
+            # the client fed EOF into its own reader (connection closed on its side): the rest of the stream goes nowhere
+            self.closed = True
 
 
 @dataclass
